@@ -20,7 +20,7 @@ CHECKS = {
         text="Exhaustive over single entries (8 ranges x 6 original ranges x 3 foreign classes x 3 file contexts) and bounded pairs, each in LF/CRLF/CR/noise/permuted variants, 9 lines incl. 2^32 and 2^64-1 extremes, file present/absent; plus seeded sessions over generated and corpus mappings where TLC re-derives every answer from the bytes.",
         design="4 C01", note="Bounded alphabets; sampled sessions. Trusted: TLC, Json module, harness encoders (canary-checked)."),
     "C02": dict(
-        technique="same TLA+ answer function as C01/C03/C04 used as the single reference for all three handles; TLC-generated files (blocks, sourceFile placement, adversarial names) replayed; real sessions validated by TLC; builder step machine (Builder.tla: class in progress, sourceFile register, per-class dedup set, one-record lookahead) model-checked against the declarative index in mapper and cache-writer variants, pinned valueless-header variant refuted; corpus-scale block-wise validation (Trace_Blocks); random PROGRAMS of API calls over several mappings, handles, cache files and interleaved iterators replayed through the session-level machine System.tla (Trace_System, stateful); text/typed/signature sessions (Trace_Text)",
+        technique="same TLA+ answer function as C01/C03/C04 used as the single reference for all three handles; TLC-generated files (blocks, sourceFile placement, adversarial names) replayed; real sessions validated by TLC; builder step machine (Builder.tla: class in progress, sourceFile register, per-class dedup set, one-record lookahead) model-checked against the declarative index in mapper and cache-writer variants, pinned valueless-header variant refuted; corpus-scale block-wise validation (Trace_Blocks); random PROGRAMS of API calls over several mappings, handles, cache files and interleaved iterators replayed through the session-level machine System.tla (Trace_System, stateful); text/typed/signature sessions (Trace_Text); history perturbation of the harness (discarded error-path calls before one in three handle creations) and targeted query groups (line and parameter lookups of one method back to back)",
         text="Mapper (with and without parameter index) and cache are each compared, query for query, with Retrace!Answer over the declarative index of the same bytes; any disagreement between two handles is therefore a rejected case or trace event.",
         design="4 C02", note="Stack-trace text/typed and signature agreement are exercised under C07/C08/C16. Bounded + sampled."),
     "C03": dict(
@@ -28,7 +28,7 @@ CHECKS = {
         text="Exhaustive over small multi-class files (repeated class names, inline pairs, duplicates across blocks, with/without ranges) with every (class, method, params) triple of the universe; seeded sessions validated by TLC.",
         design="4 C03", note="Bounded alphabets; trusted: TLC, Json module, harness (canary-checked)."),
     "C04": dict(
-        technique="declarative class/method lookup + coherence invariant in TLA+ (checked by TLC on every generated file); adversarial class-name sequences and record sequences replayed; trace validation incl. files with up to 180 near-identical class names; binary search / range expansion / checked slicing of the cache reader as step machines (CacheReader.tla) model-checked on every key array <=7, sorted or not",
+        technique="declarative class/method lookup + coherence invariant in TLA+ (checked by TLC on every generated file); adversarial class-name sequences and record sequences replayed; trace validation incl. files with up to 180 near-identical class names; binary search / range expansion / checked slicing of the cache reader as step machines (CacheReader.tla) model-checked on every key array <=7, sorted or not; names of 127..257 bytes (length-prefix boundaries) and history perturbation",
         text="All sequences of <=3 (quick) / <=4 class blocks over 9 adversarial obfuscated names (prefixes, $ and . variants, non-ASCII, duplicates) with 19 probe names incl. sort neighbours; coherence between method lookup and line frames is an invariant of the model; real sessions with hundreds of similar names validated by TLC.",
         design="4 C04", note="Bounded alphabets; trusted: TLC, Json module, harness (canary-checked)."),
     "C07": dict(
@@ -40,35 +40,35 @@ CHECKS = {
         text="All typed traces over {mapped, mapped with message, unmapped, other mapped} throwables x 5 frame kinds (resolve to 1, to 2, known method no entry, unknown class, no-range entry) up to depth 2 (quick) / 3 (thorough): exact result, preservation law and agreement of printed result with the text API on canonical traces.",
         design="4 C08", note="Canonical = top level has an exception or frame, cause levels have exceptions, frames carry files. Bounded + sampled."),
     "C16": dict(
-        technique="descriptor grammar/denotation (declarative) vs tokenizer index machine (operational) in Signature.tla, model-checked over all descriptors <=3 params; all single-edit corruptions classified into the three 'no result' classes; replay into mapper and cache; generated descriptors (0..6 params, Unicode) validated by TLC; bounded-exhaustive token soups over ( ) L ; [ I V and multi-byte characters: no panic and mapper = cache",
+        technique="descriptor grammar/denotation (declarative) vs tokenizer index machine (operational) in Signature.tla, model-checked over all descriptors <=3 params; all single-edit corruptions classified into the three 'no result' classes; replay into mapper and cache; generated descriptors (0..6 params, Unicode) validated by TLC; bounded-exhaustive token soups over ( ) L ; [ I V and multi-byte characters: no panic and mapper = cache; classes whose obfuscated name is a primitive keyword",
         text="1554 valid descriptors (6 parameter types incl. class named I, ib/Long, nested non-ASCII arrays x 6 return types) exhaustively, single-character deletions/substitutions/insertions of those with <=1 (quick) / <=2 parameters, plus seeded descriptors and arbitrary Unicode strings where mapper = cache and the stated None classes are enforced.",
         design="4 C16", note="Strings outside the valid grammar and the three stated classes are only required to agree between mapper and cache."),
     "C17": dict(
-        technique="printers (declarative) and byte-level parsers (code-shaped) in StackTraceSyntax.tla; TLC checks Parse(Print(t))=t and Print(Parse(Print(t)))=Print(t) over alphabets containing the parsers' delimiters; same values through constructors/Display/try_parse; generated traces (depth<=5, <=20 frames, lines up to 2^64-1) validated by TLC",
+        technique="printers (declarative) and byte-level parsers (code-shaped) in StackTraceSyntax.tla; TLC checks Parse(Print(t))=t and Print(Parse(Print(t)))=Print(t) over alphabets containing the parsers' delimiters; same values through constructors/Display/try_parse; generated traces (depth<=5, <=20 frames, lines up to 2^64-1) validated by TLC; classes containing '/', '@', '$$'; files containing parentheses",
         text="All traces over messages such as ': ', 'Caused by: x', 'at a.b(c:1)', classes with $ and non-ASCII, '<init>', lines 0 and 2^64-1, files '' and 'x(y)', depth <=3 (quick) / <=5, top-level exception present or absent; round trip of whole traces, single frames and throwables on the spec and on the implementation.",
         design="4 C17", note="Domain: StackTraceSyntax!TraceOk (top level carries an exception or a frame; see DESIGN section 6 item 7)."),
     "C09": dict(
-        technique="TLA+ decoder of the documented binary format (CacheFormat.tla: layout, WellFormed, Content) applied by TLC to the real bytes ProguardCache::write produced; decoded index compared with the declarative index of the mapping (CacheContent!SameIndex); layout arithmetic model-checked (MC_CacheParse); cache files written by the specification's own writer (CacheWriter.tla, two string-table orders) checked WellFormed/SameIndex by TLC and read by the real reader; big-class and 3-byte-LEB128 string generators",
+        technique="TLA+ decoder of the documented binary format (CacheFormat.tla: layout, WellFormed, Content) applied by TLC to the real bytes ProguardCache::write produced; decoded index compared with the declarative index of the mapping (CacheContent!SameIndex); layout arithmetic model-checked (MC_CacheParse); cache files written by the specification's own writer (CacheWriter.tla, two string-table orders) checked WellFormed/SameIndex by TLC and read by the real reader; big-class and 3-byte-LEB128 string generators; history perturbation before written-file events; strings at every length-prefix boundary",
         text="For generated mappings (0..45 classes, member-less classes, shared/non-ASCII/>127-byte strings, noise) and corpus files, TLC decodes the written bytes itself and checks magic/version/counts, strict class order, exact tiling of member and by-params ranges in class order, intra-class order, 8-byte alignment with zero padding, string readability/sentinels, exact length, equality of the decoded index with Index!Blocks, and that the library self-test returned.",
         design="4 C09", note="Files are decoded whole by TLC (sizes up to a few 10 KB); sampled inputs. Trusted: TLC, Json module, harness byte recorder (canary-checked)."),
     "C11": dict(
-        technique="acceptance rule ParseOutcome in TLA+ model-checked over all file shapes x every cut point x header edits (MC_CacheParse), crash-leaves-prefix invariant of the writer/sink protocol (MC_CacheIO), and real ProguardCache::parse outcomes on every prefix / header edit of real files validated by TLC; the two statements 'no torn file is accepted' and 'the complete file is accepted' proved for ALL sizes with TLAPS over the integer rule (spec/CacheLayout.tla, spec/proofs/CacheLayoutProofs.tla, 48 obligations), which MC_CacheParse ties to the byte-level rule; histories inside whole API programs (System.tla: WriteCrash, Truncate, Overwrite, ParseCache with verdict; MC_System focus `torn`, every program of 5/6 calls run against the library and validated by Trace_System): what a failed write leaves behind and torn / damaged copies are parsed with exactly the verdict the format prescribes, before and after successful writes of the same mapping",
+        technique="acceptance rule ParseOutcome in TLA+ model-checked over all file shapes x every cut point x header edits (MC_CacheParse), crash-leaves-prefix invariant of the writer/sink protocol (MC_CacheIO), and real ProguardCache::parse outcomes on every prefix / header edit of real files validated by TLC; the two statements 'no torn file is accepted' and 'the complete file is accepted' proved for ALL sizes with TLAPS over the integer rule (spec/CacheLayout.tla, spec/proofs/CacheLayoutProofs.tla, 48 obligations), which MC_CacheParse ties to the byte-level rule; histories inside whole API programs (System.tla: WriteCrash, Truncate, Overwrite, ParseCache with verdict; MC_System focus `torn`, every program of 5/6 calls run against the library and validated by Trace_System): what a failed write leaves behind and torn / damaged copies are parsed with exactly the verdict the format prescribes, before and after successful writes of the same mapping; every prefix of small files also parsed at an address 4 modulo 8 and, if accepted, judged against the answers of the properly aligned full file; foreign buffers with arbitrary counts, word-swapped files, mapping text",
         text="Exhaustive for shapes up to 2x2x2 entries and 5 string bytes (quick) / 3x3x3x9: every strict prefix rejected, stated error kinds for flipped/foreign magic, version, over-declared sections and strings; on real files every prefix of the first three files, sampled prefixes of the rest and 40+ single-field header edits each must produce exactly the outcome (kind, expected, found) ParseOutcome predicts.",
         design="4 C11", note="Since no strict prefix is accepted, the 'or answers like the full file' branch is vacuous and any acceptance is reported."),
     "C14": dict(
-        technique="trace validation: the same mapping written twice in-process, by 4 threads and by >=8 (quick) / 32 separately started processes; TLC checks all copies byte-identical and length = header-implied length (CacheFormat!ImpliedLength); histories: writes after failed writes (sink failing at call i), after a panicking sink and after writes/reads of other mappings must reproduce the same bytes; random API programs replayed through System.tla: every write of one mapping must give the bytes of its first write whatever was created, parsed, queried or iterated in between",
+        technique="trace validation: the same mapping written twice in-process, by 4 threads and by >=8 (quick) / 32 separately started processes; TLC checks all copies byte-identical and length = header-implied length (CacheFormat!ImpliedLength); histories: writes after failed writes (sink failing at call i), after a panicking sink and after writes/reads of other mappings must reproduce the same bytes; random API programs replayed through System.tla: every write of one mapping must give the bytes of its first write whatever was created, parsed, queried or iterated in between; the same mapping bytes written from all eight address residues modulo 8; sinks that take part of a buffer and then fail with varying io::ErrorKind",
         text="Different processes have different hash seeds and addresses; any dependence of the output on HashMap/HashSet iteration order or uninitialised padding shows up as differing copies.",
         design="4 C14", note="Sampled mappings (generated + small corpus files). The writer model with nondeterministic container order is future work listed in DESIGN."),
     "C15": dict(
-        technique="writer/sink protocol as a TLA+ state machine (CacheIO.tla) model-checked for every sink response at every call; the pinned single-write padding variant must be refuted; TLC-generated sink schedules (cap k=1..16, short/zero/fail/interrupt at call i) replayed through ProguardCache::write with a scripted sink; recorded runs with every sink call validated by TLC (RecordedProtocol); liveness: every write ends (ok, err or crash) under weak fairness with bounded interruptions (MC_CacheIO_live); failing writes inside whole API programs (System!WriteCrash): what the sink had accepted is a prefix of every successful write of the same mapping, earlier or later",
+        technique="writer/sink protocol as a TLA+ state machine (CacheIO.tla) model-checked for every sink response at every call; the pinned single-write padding variant must be refuted; TLC-generated sink schedules (cap k=1..16, short/zero/fail/interrupt at call i) replayed through ProguardCache::write with a scripted sink; recorded runs with every sink call validated by TLC (RecordedProtocol); liveness: every write ends (ok, err or crash) under weak fairness with bounded interruptions (MC_CacheIO_live); failing writes inside whole API programs (System!WriteCrash): what the sink had accepted is a prefix of every successful write of the same mapping, earlier or later; sinks implementing write_vectored (count taken across the offered buffers); non-retryable failures of varying io::ErrorKind, short write followed by a failure",
         text="Success implies the sink holds exactly the canonical bytes; a reported failure implies an error result and a prefix; every offered buffer is the next bytes of the canonical file.",
         design="4 C15", note="Canonical = what the same build writes into a Vec. Bounded exhaustive on the model, 88 policy schedules on a real one-class file, seeded policies on generated mappings."),
     "C10": dict(
-        technique="history model of releases/files (CacheHistory.tla) model-checked: agreement holds iff equal version implies equal layout (the undisciplined variant must be refuted); the pinned 5.5.0 sources linked as crate proguard_pinned next to the current tree, all (writer, reader) pairs over generated/corpus mappings, recorded disagreements validated by TLC (RecordedAgreement); a third writer: cache files serialised by the specification (CacheWriter.tla) are read by the current reader and must be answered per Retrace!Answer",
+        technique="history model of releases/files (CacheHistory.tla) model-checked: agreement holds iff equal version implies equal layout (the undisciplined variant must be refuted); the pinned 5.5.0 sources linked as crate proguard_pinned next to the current tree, all (writer, reader) pairs over generated/corpus mappings, recorded disagreements validated by TLC (RecordedAgreement); a third writer: cache files serialised by the specification (CacheWriter.tla) are read by the current reader and must be answered per Retrace!Answer; mappings with empty obfuscated method names (no non-empty-name precondition here)",
         text="For every mapping both releases write a cache; both readers parse both files and answer 60..120 queries each (class, method, frames by line/params, throwable, text trace, signature); a file must be rejected with WrongVersion by one of them or answered identically by both.",
         design="4 C10", note="pinned/proguard-5.5.0 is a verbatim copy (git show f3fcb84:src/...). Sampled mappings in the stated domain."),
     "C12": dict(
-        technique="machine-integer model of the cache reader's line arithmetic over ALL field values at small width (MC_LineArith; the unchecked pinned variant must be refuted); F-field corruptions of real caches (boundary values into any u32 field, record swaps, bit flips, string/LEB128/UTF-8 damage, random bodies, header counts) probed with the full query surface under catch_unwind; completion and pointer provenance of every returned string validated by TLC; exhaustive single-field boundary edits of every record of small files; CacheReader.tla step machines (binary search, range expansion, checked slicing) model-checked on unsorted arrays for bounds and termination; the saturating line rule proved for EVERY width and all field values with TLAPS (LineArith.tla, LineArithProofs.tla: NoOverflow, Exact, Clamped, Monotone); systematic string-section edits (over-long LEB128 prefixes at every string start); damaged and torn copies inside whole API programs (System.tla, focus `torn`) and random programs: a panic anywhere in a program is reported",
+        technique="machine-integer model of the cache reader's line arithmetic over ALL field values at small width (MC_LineArith; the unchecked pinned variant must be refuted); F-field corruptions of real caches (boundary values into any u32 field, record swaps, bit flips, string/LEB128/UTF-8 damage, random bodies, header counts) probed with the full query surface under catch_unwind; completion and pointer provenance of every returned string validated by TLC; exhaustive single-field boundary edits of every record of small files; CacheReader.tla step machines (binary search, range expansion, checked slicing) model-checked on unsorted arrays for bounds and termination; the saturating line rule proved for EVERY width and all field values with TLAPS (LineArith.tla, LineArithProofs.tla: NoOverflow, Exact, Clamped, Monotone); systematic string-section edits (over-long LEB128 prefixes at every string start); damaged and torn copies inside whole API programs (System.tla, focus `torn`) and random programs: a panic anywhere in a program is reported; the same file at every misalignment (the parser aligns by pointer value)",
         text="Every accepted corrupted buffer must let class/method/frame (line, file, params; lines 0, 2^31, 2^32-2..2^32, 2^64-1)/throwable/text+typed trace/signature/Debug queries return, and every returned &str must point into the buffer or the query.",
         design="4 C12", note="Memory safety of the two unsafe Pod casts is observed only through results. Sampled corruptions (1.4k quick / 7k thorough buffers)."),
     "C13": dict(
